@@ -173,11 +173,17 @@ type signLogger struct {
 
 func (s signLogger) Sign(m []byte) (hotstuff.QuorumSignature, error) {
 	msg := append([]byte{}, m...)
-	s.f.log = append(s.f.log, func() string { return "sign(" + s.f.msgName(msg) + ")" })
+	// timeout bytes name the high QC of the moment of signing; it may have moved on by the time the
+	// step's effects are rendered
+	var now []hotstuff.QuorumCert
+	if s.f.states != nil {
+		now = append(now, s.f.states.HighQC())
+	}
+	s.f.log = append(s.f.log, func() string { return "sign(" + s.f.msgName(msg, now...) + ")" })
 	return s.Base.Sign(m)
 }
 
-func (f *replicaFam) msgName(m []byte) string {
+func (f *replicaFam) msgName(m []byte, now ...hotstuff.QuorumCert) string {
 	if len(m) == 8 {
 		return fmt.Sprintf("view:%d", binary.LittleEndian.Uint64(m))
 	}
@@ -200,7 +206,7 @@ func (f *replicaFam) msgName(m []byte) string {
 		if len(rest) == 0 {
 			return fmt.Sprintf("tmo:%d:%d:-", id, v)
 		}
-		for _, qc := range f.candidateQCs() {
+		for _, qc := range append(now, f.candidateQCs()...) {
 			if bytes.Equal(qc.ToBytes(), rest) {
 				return fmt.Sprintf("tmo:%d:%d:%s", id, v, f.dQC(qc))
 			}
